@@ -78,7 +78,9 @@ def worker(case):
     scratch = core.scratch_dir()
     if kind == "api":
         _, base, vi, order = case
-        tag, ad = variants(fdesigns.BASES[base]())[vi]
+        tag, ad = variants(fdesigns.BASES[base]())[vi if isinstance(vi, int) else 0]
+        if not isinstance(vi, int):
+            tag = vi
         n = design.build_netlist(to_api(ad))
         tag = "%s:%s" % (base, tag)
     elif kind == "hier":
@@ -100,6 +102,20 @@ def worker(case):
         _, base, opts, order = case
         n = c05.parse_text(edif_writer.render(fdesigns.BASES[base](), **opts))
         tag = "reparsed:" + base
+    if kind == "api" and case[2] == "edited-after-export":
+        # a netlist that was exported once (identifiers assigned) is edited: new elements go in FRONT of the
+        # existing ones and carry names that collide with existing identifiers only after EDIF-ification
+        with core.quiet():
+            s.compose(n, os.path.join(scratch, "first_%d.edf" % os.getpid()))
+        top = n.top_instance.reference
+        leaf = next(x.reference for x in top.children)
+        old_i = top.children[0]
+        old_c = top.cables[0]
+        x = s.Instance(name=old_i.name.swapcase() if old_i.name.swapcase() != old_i.name else old_i.name + "-")
+        x.reference = leaf
+        top.add_child(x, position=0)
+        top.add_cable(s.Cable(name=old_c.name.swapcase() if old_c.name.swapcase() != old_c.name else old_c.name + "-"), position=0)
+        top.cables[0].create_wire()
     before = strip(canon.canon_netlist(n))
     key = core.digest((repr(before), order))
     out = os.path.join(scratch, "rt_%d.edf" % os.getpid())
@@ -152,6 +168,7 @@ def cases(tier):
         for vi in range(len(variants(fdesigns.BASES[base]()))):
             for order in core.ORDER_VARIANTS:
                 out.append(("api", base, vi, order))
+        out.append(("api", base, "edited-after-export", "asc"))
     for desc in design.family_hier(tier, variants=("plain", "two-libraries", "dangling-nets")):
         if tier == "thorough" or desc[0] in ("K1-chain2", "K8-bus", "K4-wire-only") or sum(desc[1]) % 11 == 0:
             out.append(("hier", desc, "asc"))
